@@ -26,7 +26,7 @@ Positions == {"print", "afterfilter", "beforefilter", "apply", "macro", "include
               "afterraw", "afterrawtrim", "twice", "twicetrim", "applytwice", "settwice", "mixed",
               "nestedchain", "nestedarg", "nestedboth", "sandboxdefault", "foreign", "forseq",
               "litdefault", "litformat", "litreplace", "applychain", "applychain2", "applyargs",
-              "literal", "literalset", "macroout", "macrooutset", "macrooutarg", "parentset", "parentprint"}
+              "foreigninc", "literal", "literalset", "macroout", "macrooutset", "macrooutarg", "parentset", "parentprint"}
 OtherName(f) == IF f = "e" THEN "escape" ELSE "e"
 
 \* program for filter name f applied to variable s in position pos; pre/post are the
@@ -58,6 +58,7 @@ Prog(pos, f) ==
       \* inside a sandboxed include under the policy the engine provides by default; other engines of the process redefine the names
       [] pos = "sandboxdefault" -> ("main" :> <<Text(<<91>>), Include(LS(NT.t1), Lit(Null), FALSE, FALSE, FALSE, TRUE), Text(<<93>>)>>) @@ ("t1" :> <<PrintS(Filt(f, Var("s"), <<>>))>>)
       [] pos = "foreign"      -> ("main" :> <<Text(<<91>>), PrintS(Filt(f, Var("s"), <<>>)), Text(<<93>>)>>)
+      [] pos = "foreigninc"   -> ("main" :> <<Text(<<91>>), Inc(LS(NT.t1)), Text(<<93>>)>>) @@ ("t1" :> <<For1("i", Arr(<<Var("s")>>), <<PrintS(Filt(f, Var("i"), <<>>))>>)>>)
       [] pos = "forseq"       -> ("main" :> <<Text(<<91>>), For1("i", Arr(<<Var("s")>>), <<PrintS(Filt(f, Var("i"), <<>>))>>), Text(<<93>>)>>)
       \* the subject of the chain is a literal, the data arrive through an argument (and differ from render to render)
       [] pos = "litdefault"   -> ("main" :> <<Text(<<91>>), PrintS(Filt(f, Filt("default", LS(<<>>), <<Var("s")>>), <<>>)), Text(<<93>>)>>)
@@ -114,7 +115,7 @@ MayFail == {"applychain", "applychain2", "applyargs"}
 \* ("rerender": the same engine renders again with another value of s; a fresh engine decides what that must give)
 RunOpts(pos) == CASE pos = "sandboxdefault" -> [defaultpolicy |-> TRUE]
                   [] pos \in {"litdefault", "litformat", "litreplace", "print", "set", "macro"} -> [rerender |-> ("s" :> VS(<<60, 122, 62>>))]
-                  [] pos = "foreign" -> [foreign |-> {"e", "escape", "trim", "raw"}]
+                  [] pos \in {"foreign", "foreigninc"} -> [foreign |-> <<"e", "escape", "trim", "raw">>]
                   [] OTHER -> EmptyFn
 CaseOf(c) ==
     [prop |-> "C07", key |-> ToJson(c),
